@@ -134,6 +134,7 @@ int Interp::srcOf(const Instruction &I) {
   srcCache[&I] = id;
   return id;
 }
+std::map<std::string, std::set<int>> g_linesTouched; // source lines of the library that contributed interpreted instructions (coverage accounting)
 void Interp::touch(const Instruction &I) {
   auto it = fnCache.find(&I);
   if (it == fnCache.end()) {
@@ -144,6 +145,7 @@ void Interp::touch(const Instruction &I) {
       if (p == std::string::npos) continue;
       std::string fn; if (auto *SP = P->getScope()->getSubprogram()) fn = SP->getName().str();
       size_t lt = fn.find('<'); if (lt != std::string::npos && lt > 0 && fn.compare(0, 8, "operator") != 0) fn = fn.substr(0, lt);
+      g_linesTouched[f.substr(f.rfind("Fastor/"))].insert((int)P->getLine());
       std::string key = f.substr(f.rfind("Fastor/")) + "::" + fn;
       auto jt = fnIx.find(key);
       int id; if (jt == fnIx.end()) { fnNames.push_back(key); id = fnIx[key] = (int)fnNames.size() - 1; } else id = jt->second;
